@@ -26,6 +26,10 @@ func init() {
 			for k := 1; k <= 3; k++ {
 				jobs = append(jobs, Job{Pkg: "filterlist", Func: "verifC11Storage", Args: []int64{int64(k)}})
 			}
+			// the storage scanner over several lists, some of which yield nothing
+			for _, kn := range [][2]int64{{2, 2}, {3, 1}, {3, 2}, {4, 1}} {
+				jobs = append(jobs, Job{Pkg: "filterlist", Func: "verifC11MultiScan", Args: []int64{kn[0], kn[1]}})
+			}
 			// a line as long as the scanner's read buffer, give or take a few bytes
 			for _, k := range []int64{-1, 0, 1, 2, 3, 4, 5} {
 				jobs = append(jobs, Job{Pkg: "filterlist", Func: "verifC11Long", Args: []int64{k}})
@@ -82,10 +86,10 @@ func init() {
 			e.Ctx["table:classify"] = curRun.Natives["classify"]
 			e.Redirects[modPath+"/rules.NewRule"] = l.Pkgs[modPath+"/filterlist"].Func("verifNewRuleStub")
 		},
-		MustReach: []string{"c11.packing", "c11.scanned", "c11.storage", "c11.duplicate", "c11.file", "c11.filescan", "c11.long"},
+		MustReach: []string{"c11.packing", "c11.scanned", "c11.storage", "c11.duplicate", "c11.file", "c11.filescan", "c11.long", "c11.multiscan"},
 		ContractStubs: "os.File is the engine's file model (content, offset, closed flag; a read may be short); a counterexample that needs a short read cannot be forced natively",
 		Bounds: map[string]string{
-			"quick":    "index packing for all int32 pairs (full width); in-memory list content of 0..4 symbolic bytes over {a, #, space, LF, CR} (lines are classified by a table of the real NewRule results for every line over {a,#,space}, computed natively each run, so counterexamples replay) scanned through the real RuleScanner / bufio.Reader / strings.Reader code and retrieved through the real RetrieveRule, IgnoreCosmetic on and off; CRLF variant; file-backed list vs in-memory list on the same symbolic content of 0..3 bytes with a read buffer of 1..3 bytes and short reads (RetrieveRule at every offset; scanned sequence); the scanner's line splitting on a line of buffer-size-5..buffer-size+1 filler bytes followed by four symbolic bytes over {a,LF} (lines longer than, equal to and shorter than the 4 KiB read buffer); storage of 1..3 lists with arbitrary int32 ids (negative, zero, extreme) and an arbitrary offset below 2^31",
+			"quick":    "index packing for all int32 pairs (full width); in-memory list content of 0..4 symbolic bytes over {a, #, space, LF, CR} (lines are classified by a table of the real NewRule results for every line over {a,#,space}, computed natively each run, so counterexamples replay) scanned through the real RuleScanner / bufio.Reader / strings.Reader code and retrieved through the real RetrieveRule, IgnoreCosmetic on and off; CRLF variant; file-backed list vs in-memory list on the same symbolic content of 0..3 bytes with a read buffer of 1..3 bytes and short reads (RetrieveRule at every offset; scanned sequence); the scanner's line splitting on a line of buffer-size-5..buffer-size+1 filler bytes followed by four symbolic bytes over {a,LF} (lines longer than, equal to and shorter than the 4 KiB read buffer); the storage scanner over 2..4 in-memory lists of 1..2 symbolic bytes each (lists that yield nothing in any position); storage of 1..3 lists with arbitrary int32 ids (negative, zero, extreme) and an arbitrary offset below 2^31",
 			"thorough": "content up to 5 bytes (file-backed up to 4)",
 		},
 		Outside:     []string{"rules.NewRule beyond its results on lines over {a,#,space} (exact table) - other lines would be an uninterpreted classification", "the real os.File and operating system (file model: content, offset, closed flag, reads that deliver one byte or everything)", "contents longer than the bound other than the long-line shape (a filler, four symbolic bytes)", "multi-byte UTF-8 and NUL bytes"},
